@@ -2,7 +2,7 @@
    Property theorems only; each closed with [exact] and followed by
    Print Assumptions. *)
 From Coq Require Import List NArith.
-From HV Require Import Base.Res Base.Str Model.Parse Proofs.ParseProofs.
+From HV Require Import Base.Res Base.Str Model.Parse Proofs.ParseProofs Proofs.ParseRefine.
 Import ListNotations.
 
 (* Constructing an annotation object from any text never raises. *)
@@ -16,10 +16,39 @@ Theorem C02_tokens_tile : forall s : str,
 Proof. exact split_total_tiles. Qed.
 Print Assumptions C02_tokens_tile.
 
-(* All remaining clauses (one tag per maximal trimmed run with exact spans,
+(* For EVERY text the tree is the one the character-level specification
+   prescribes: one tag per maximal run of non-delimiter characters trimmed of
+   blanks (none for an all-blank run), tag spans = the trimmed run, nesting =
+   parenthesis nesting, group spans from '(' to just after the matching ')';
+   and [] when some ')' has no partner or some '(' stays open. *)
+Theorem C02_init_refines_spec : forall s : str, hedstring_init s = Ok (spec_parse s).
+Proof. exact init_refines_spec. Qed.
+Print Assumptions C02_init_refines_spec.
+
+(* Unbalanced text gives the empty tree (all strings). *)
+Theorem C02_unbalanced_empty : forall s : str, balanced s = false -> hedstring_init s = Ok [].
+Proof. exact unbalanced_empty. Qed.
+Print Assumptions C02_unbalanced_empty.
+
+(* Balanced text is parsed by the specification's success branch (all strings). *)
+Theorem C02_balanced_parses : forall s : str, balanced s = true ->
+  exists a ch, spec_loop s 0 0 [] [(0, [])] = Some [(a, ch)] /\ hedstring_init s = Ok (rev ch).
+Proof. exact balanced_parses. Qed.
+Print Assumptions C02_balanced_parses.
+
+(* Content of the tokens of every text: blanks only / blanks-delimiter-blanks /
+   trimmed delimiter-free tag text, covering the text, in grammar order. *)
+Theorem C02_token_content : forall s : str,
+  exists cts qf, split_hed_string s = Some (spans_of cts 0) /\ s = cconcat cts /\
+                 Forall ctok_ok cts /\ arun Q0 (map fst cts) = Some qf.
+Proof. exact split_content. Qed.
+Print Assumptions C02_token_content.
+
+(* Print / re-parse equality (and, redundantly, every clause above) (one tag per maximal trimmed run with exact spans,
    nesting = parenthesis nesting with group spans, unbalanced => empty tree,
    print/re-parse equality), exhaustively over the delimiter alphabet up to
-   length 7 -- the bound the property itself names. *)
+   length 7 -- the bound the property itself names.  Only the print/re-parse
+   clause still rests on this bounded theorem. *)
 Theorem C02_spec_bounded : forall s : str,
   length s <= 7 -> Forall (fun c => In c sigma6) s -> spec_ok s = true.
 Proof. exact (check_upto_sound 7 check_upto_7). Qed.
